@@ -11,7 +11,7 @@ def perms(n):
 
 def present(spec, choice):
     """choice: {'rule_perm': tuple, 'edge_perm': {rule idx: tuple}, 'node_rev': {rule idx: bool}, 'rename': bool, 'value_swap': bool}"""
-    ren = (lambda s: s + '_r') if choice.get('rename') else (lambda s: s)
+    ren = renamer(spec) if choice.get('rename') else (lambda s: s)
     rules = []
     for ri in choice['rule_perm']:
         r = spec['rules'][ri]
@@ -48,3 +48,17 @@ def permute_flat(flat, types, vp):
     idx = list(itertools.product(*[range(n) for n in sizes]))
     pos = {ix: k for k, ix in enumerate(idx)}
     return [flat[pos[tuple(vp[l][i] for l, i in zip(types, ix))]] for ix in idx]
+
+
+def renamer(spec):
+    """consistent renaming of every node label, nonterminal and terminal that REVERSES the lexicographic order of the names
+    (anything sorted or compared by name sees a different order), mixing cases so that upper/lower-case conventions do not survive"""
+    names = sorted(set(spec['domains']) | set(spec['nonterminals']) | set(spec['terminals']))
+    n = len(names)
+    table = {}
+    for rank, nme in enumerate(names):
+        k = n - 1 - rank
+        table[nme] = ('z' if k % 2 else 'A') + f'{k:02d}'
+    f = lambda s: table[s]
+    f.inv = {v: k for k, v in table.items()}
+    return f
